@@ -619,6 +619,12 @@ func init() {
 		ex.W.onSelect = a[0]
 		return nil
 	})
+	// like OnSelect, but only at selects that can wait (no default case)
+	vx("OnBlockingSelect", func(ex *Exec, fr *Frame, a []Value, s ssa.Instruction) Value {
+		ex.W.onSelect = a[0]
+		ex.W.onSelectBlockingOnly = true
+		return nil
+	})
 	vx("IgnoreGo", func(ex *Exec, fr *Frame, a []Value, s ssa.Instruction) Value {
 		ex.W.ignoreGo = true
 		return nil
